@@ -3,6 +3,7 @@ import re
 
 from sa import mir, tables, asyncs, affine
 from sa.mir import backslice, AnchorMissing
+from rules import common
 from rules import C01, C03, C09, C10
 
 TITLE = ("C04: order of the two device writes of a blob (data, then the index page that makes it visible), index update only after successful writes, "
@@ -124,3 +125,4 @@ def run(chk, F):
     chk.run_rule("C04.tombstone-slot", "every branch computing the newest tombstone's slot is affine-equal to offset / SERIALIZED_LEN", 2, C10.slot_of_offset, F)
     chk.run_rule("C04.tombstone-append", "append writes at the tail, advances it, flushes on page change and before returning", 6, C10.append, F)
     chk.run_rule("C04.reclaim-order", "reclaim: index entries removed, block cleaned (first page zeroed), then released", 4, C09.release_raii, F)
+    chk.run_rule("C04.io-result-checked", "the Result of every device read / write in the block engine is propagated, matched or handed on — never dropped", 9, common.io_result_checked, F)
